@@ -8,12 +8,12 @@ Model: `PySMT.Model.getValue` (Impl/Model.lean) = `EagerModel.get_value`
 substitute the constants, simplify, return the result if it is a constant.
 
 All theorems are `_partial` for the same reason as in C01: they are stated on the fragment
-`inFrag` of the simplifier model (Boolean/core and arithmetic families so far; bit-vector,
+`inFrag` of the simplifier model (Boolean/core, arithmetic and bit-vector families so far;
 string and array operators are missing) and on quantifier-free formulas `qf` (the
 property's domain: ground-evaluable formulas) with scalar constants assigned to symbols
 (`AsgOK`; array-valued assignments are outside the fragment). `fold_complete_partial` (all
 arguments constants ⇒ every rule returns a constant: the part of C02 that C01 does not give)
-is proved for every rule of the two families (`FoldOK`, Proofs/SimpFold.lean).
+is proved for every rule of these families (`FoldOK`, Proofs/SimpFold.lean, Proofs/SimpBVFold.lean).
 -/
 namespace PySMT.C02
 open PySMT PySMT.Model PySMT.Simplifier
@@ -64,10 +64,10 @@ theorem fold_complete_partial (t : Term) (τ : Ty) (hwf : t.wf = true) (hfr : in
     (simp t).op.isConstant = true :=
   fold_complete t τ hwf hfr hty hg I hI hd
 
-/-- rule level: every entry of the table (except symbols and applications) maps constant
-arguments to a constant -/
-theorem rule_folds (op : Op) (e : Simp.Entry) (h : ruleOf op = some e) (h1 : op ≠ .symbol) (h2 : op ≠ .function) :
-    Simp.FoldOK op e := ruleOf_fold' op e h h1 h2
+/-- rule level: every entry of the table (except symbols, applications and array values — an array value
+with constant arguments stays an array value, not a scalar constant) maps constant arguments to a constant -/
+theorem rule_folds (op : Op) (e : Simp.Entry) (h : ruleOf op = some e) (h1 : op ≠ .symbol) (h2 : op ≠ .function)
+    (h3 : op ≠ .arrayValue) : Simp.FoldOK op e := ruleOf_fold' op e h h1 h2 h3
 
 /-! ## non-vacuity -/
 
